@@ -318,7 +318,7 @@ func c16StreamRun(c c16StreamCase) (key, msg string, st c16StreamStats) {
 	}
 	sc := newSCTPConn(hc, nc, uint64(c.Max))
 	var timedOut int32
-	guard := time.AfterFunc(60*time.Second, func() { atomic.StoreInt32(&timedOut, 1); sc.Close() })
+	guard := time.AfterFunc(c16StreamStall, func() { atomic.StoreInt32(&timedOut, 1); sc.Close() })
 	defer func() {
 		guard.Stop()
 		sc.Close()
@@ -369,7 +369,13 @@ func c16StreamRun(c c16StreamCase) (key, msg string, st c16StreamStats) {
 		}
 	}
 	if atomic.LoadInt32(&timedOut) == 1 {
-		return "harness", "hb-mode case did not finish within 60 s", st
+		if stream.consumed() {
+			// the code under test has taken every message and the terminal error from the stream, and
+			// the reader was still waiting c16StreamStall later
+			return "slow:stream:reader-stalled", fmt.Sprintf("the stream had handed over all %d messages and its terminal error, but %v later Read had returned only %d of %d bytes and no error",
+				len(plan.chunks)-1, c16StreamStall, len(obs), len(plan.exp)), st
+		}
+		return "harness", fmt.Sprintf("hb-mode case did not finish within %v", c16StreamStall), st
 	}
 	if !bytes.Equal(obs, plan.exp) {
 		d := c16FirstDiff(obs, plan.exp)
@@ -413,6 +419,8 @@ func c16HBClosed(c *hbConn) bool {
 
 var c16StreamFailed int32
 
+const c16StreamStall = 20 * time.Second
+
 func c16StreamCheck(t vh.Fataler, rec *vh.Rec, c c16StreamCase) {
 	// the hb mode contains a real goroutine schedule (receive loop vs reader); run it a few times
 	runs := 1
@@ -422,13 +430,19 @@ func c16StreamCheck(t vh.Fataler, rec *vh.Rec, c c16StreamCase) {
 			runs = 12 // after a first failure (i.e. while shrinking): make a schedule-dependent failure (nearly) reproducible
 		}
 	}
-	var key, msg string
 	var st c16StreamStats
-	for i := 0; i < runs; i++ {
-		key, msg, st = c16StreamRun(c)
-		if key != "" {
-			break
+	key, msg, extra := c16Timed(func() (string, string, map[string]bool) {
+		var k, m string
+		for i := 0; i < runs; i++ {
+			k, m, st = c16StreamRun(c)
+			if k != "" {
+				break
+			}
 		}
+		return k, m, map[string]bool{}
+	})
+	for k := range extra {
+		st.classes[k] = true
 	}
 	var classes []string
 	for k := range st.classes {
